@@ -120,7 +120,11 @@ def csvH (j : Json) : R Json := do
     | .error e => jObj [("error", jStr e)])
   return Json.arr out.toArray
 
+def batchCheckH (j : Json) : R Json := do
+  return jOpt jStr (batchCheck (← fList getBool j "trx_known") (← fList getStr j "ids") (← fList getBool j "endpoints_known")
+    (← fList getBool j "strict_unknown_include"))
+
 def handlers : List (String × Handler) :=
-  [("c19.results", resultsH), ("c19.aggregation", aggregationH), ("c19.aggregation_d", aggregationDH), ("c19.csv", csvH)]
+  [("c19.batch_check", batchCheckH), ("c19.results", resultsH), ("c19.aggregation", aggregationH), ("c19.aggregation_d", aggregationDH), ("c19.csv", csvH)]
 
 end Gnpy.Drv.C19
